@@ -95,33 +95,12 @@ fn check_round_trip(cx: &mut Cx, what: &str, c: &Case, t: &TextArchive, m: &Mode
         return None;
     }
     let data = &img.data;
-    let mut pos = 0usize;
-    if c.unicode {
-        // title: NUL-terminated Shift-JIS, padded to 4
-        let n = match data.iter().position(|b| *b == 0) {
-            Some(n) => n,
-            None => {
-                cx.fail("file-title", format!("{what}: no terminated title at the start of the data"));
-                return None;
-            }
-        };
-        if !cx.check(sjis_decode(&data[..n]).as_deref() == Some(m.title.as_str()), "file-title", || format!("{what}: title bytes {:02x?}", &data[..n])) {
-            return None;
-        }
-        pos = n + 1;
-        while pos % 4 != 0 {
-            if !cx.check(data.get(pos) == Some(&0), "file-padding", || format!("{what}: non-zero / missing padding byte at {pos}")) {
-                return None;
-            }
-            pos += 1;
-        }
-    }
+    // "In the file every message starts on a 4-byte boundary and carries its key as the label of that address."
+    // (where the title sits, what the padding bytes are and whether anything follows the last message is not stated
+    //  and not asserted; title and messages are checked through the parser above)
     for ((addr, _), (key, msg)) in labels.iter().zip(m.entries.iter()) {
         let addr = *addr as usize;
         if !cx.check(addr % 4 == 0, "message-aligned", || format!("{what}: message of key {key:?} starts at unaligned address {addr}")) {
-            return None;
-        }
-        if !cx.check(addr == pos, "nothing-but-padding-between-messages", || format!("{what}: message of key {key:?} starts at {addr}, the previous one (with padding) ended at {pos}")) {
             return None;
         }
         let decoded: Option<String>;
@@ -144,9 +123,15 @@ fn check_round_trip(cx: &mut Cx, what: &str, c: &Case, t: &TextArchive, m: &Mode
                 }
             }
             decoded = String::from_utf16(&units).ok();
-            pos = p;
+            // a big-endian archive may store the code units in the archive's byte order: accept that reading as well
+            if c.big_endian && decoded.as_deref() != Some(msg.as_str()) {
+                let swapped: Vec<u16> = units.iter().map(|u| u.swap_bytes()).collect();
+                if String::from_utf16(&swapped).ok().as_deref() == Some(msg.as_str()) {
+                    continue;
+                }
+            }
         } else {
-            let n = match data[addr..].iter().position(|b| *b == 0) {
+            let n = match data.get(addr..).and_then(|d| d.iter().position(|b| *b == 0)) {
                 Some(n) => n,
                 None => {
                     cx.fail("file-message", format!("{what}: message of key {key:?} is not terminated inside the data"));
@@ -154,20 +139,10 @@ fn check_round_trip(cx: &mut Cx, what: &str, c: &Case, t: &TextArchive, m: &Mode
                 }
             };
             decoded = sjis_decode(&data[addr..addr + n]);
-            pos = addr + n + 1;
         }
         if !cx.check(decoded.as_deref() == Some(msg.as_str()), "file-message", || format!("{what}: bytes at the label of key {key:?} decode to {decoded:?}, expected {msg:?}")) {
             return None;
         }
-        while pos % 4 != 0 {
-            if !cx.check(data.get(pos) == Some(&0), "file-padding", || format!("{what}: non-zero / missing padding byte at {pos}")) {
-                return None;
-            }
-            pos += 1;
-        }
-    }
-    if !cx.check(pos == data.len(), "file-no-trailing-data", || format!("{what}: data region has {} bytes, title+messages cover {pos}", data.len())) {
-        return None;
     }
     Some(re)
 }
@@ -188,7 +163,7 @@ impl Prop for C06 {
         "A text archive (format Unicode/ShiftJIS x endianness, title, ordered list of distinct keys incl. the empty key, messages of every length mod 4 incl. empty; UTF-16 messages over all of Unicode with planted astral, \
          BOM-like (U+FEFF, U+FFFE, U+BBEF U+00BF), zero-byte-containing code units; Shift-JIS-lossless text for the legacy format; the empty archive) is built with set_title/set_message, serialized and re-parsed with the same format and \
          endianness: title (Unicode), keys in order and every message must be equal, the parsed archive must be clean; the file is also read by the independent reference reader: every message starts on a 4-byte boundary, carries its \
-         key as the label of that address, decodes (own UTF-16LE / Shift-JIS decoder) to the message, nothing but zero padding lies between messages and the data region ends with the last one. The re-parsed archive is then edited \
+         key as the label of that address, decodes (own UTF-16LE / Shift-JIS decoder) to the message, labels in address order = key order. The re-parsed archive is then edited \
          (set_title, delete_message, set_message, new keys) and must round-trip again. Non-trivial: >= 2 entries, or a message with a non-BMP / BOM-like / zero-byte code unit, or an empty message, or the empty archive. Distinct = distinct case value."
             .into()
     }
